@@ -253,7 +253,8 @@ def floors(ctx):
     q = ctx.tier == "quick"
     f = {"evaluations": 5000 if q else 50000, "faults_injected": 3000 if q else 30000, "faults_propagated": 1000 if q else 10000,
          "fault_free_runs": 300, "faults_of_library_catchable_types": 3000,
-         "faults_propagated_with_caching_on": 2000, "faults_outside_the_Exception_hierarchy_propagated": 1000}
+         "faults_propagated_with_caching_on": 2000, "faults_outside_the_Exception_hierarchy_propagated": 1000,
+         "graphs_with_an_edge_that_lost_an_end": 10}
     for ep, cbs in (("neighbors", ["filterfunc"]), ("find_links", ["filterfunc"]), ("bft", ["ff_via", "ff_result"]),
                     ("ibft", ["ff_via", "ff_result"]), ("dft_recursive", ["ff_via", "ff_result"]),
                     ("idft_recursive", ["ff_via", "ff_result"]), ("dft_iterative", ["ff_via", "ff_result"]),
@@ -366,7 +367,7 @@ def run(ctx):
     quick = ctx.tier == "quick"
     specs = []
     frng = random.Random(13)
-    for spec in graphs.family_specs(frng, sizes=(4, 6), ecls=graphs.ECLS_ALL, vcls=graphs.VCLS_MIX):
+    for spec in graphs.family_specs(frng, sizes=(4, 6), ecls=graphs.ECLS_X, vcls=graphs.VCLS_X):
         spec = dict(spec)
         if not spec.get("uni"):
             spec["uni"] = list(range(len(spec["verts"])))
@@ -380,10 +381,16 @@ def run(ctx):
             spec = specs[i]
         else:
             spec = graphs.rand_spec(rng, nmax=8 if quick else 20, mmax=12 if quick else 40,
-                                    ecls=graphs.ECLS_ALL if i % 2 else graphs.ECLS_DU,
+                                    ecls=graphs.ECLS_X if i % 2 else graphs.ECLS_DU,
                                     uni_mode="all" if rng.random() < 0.6 else "rand")
             if not spec.get("uni"):
                 spec["uni"] = [j for j in range(len(spec["verts"])) if rng.random() < 0.8] or [0]
+            if spec["edges"] and i % 8 == 5:
+                # a graph history no constructor produces: an edge that lost one end.  Reads that reach it may
+                # refuse (IndexError) - they must still leave it exactly as it is
+                spec["half"] = [[rng.randrange(len(spec["edges"])), rng.randrange(2)]]
+                spec.pop("extra", None)
+                ctx.count("graphs_with_an_edge_that_lost_an_end")
         run_graph(ctx, spec, cache=bool(i % 2))
         n += 1
         if ctx.shard == 0 and n in (2, 25):
